@@ -31,7 +31,7 @@ DOCTORINGS = {
     "continuation-header-dropped": None,
     "stream-id-big-endian": {"stream-id-field"},
 }
-SELFTEST_MSGS = [dict(id=1, type=9, sid=1, ts=16779216, len=300, scs=0),
+BASE_MSGS = [dict(id=1, type=9, sid=1, ts=16779216, len=300, scs=0),
                  dict(id=2, type=8, sid=1, ts=1000, len=300, scs=0),
                  dict(id=3, type=1, sid=0, ts=0, len=4, scs=100),
                  dict(id=4, type=18, sid=1, ts=16777215, len=250, scs=0)]
@@ -159,7 +159,7 @@ def run(ctx):
     pp = os.path.join(ctx.out, "packets.ndjson")
     ctx.tlc("rtmp", "Gen_RtmpWriterPkts", "Gen_WriterPkts.%s.cfg" % t, cases_to=pp, timeout=600, count_states=False)
     per_gen["packets"] = sessions_from_packets(pp, rng, sessions)
-    sessions.append({"name": "selftest-base", "steps": [{"m": m} for m in SELFTEST_MSGS]})
+    sessions.append({"name": "fixed-base", "steps": [{"m": m} for m in BASE_MSGS]})
     ctx.notes["sessions_by_source"] = per_gen
 
     # ---------------------------------------------------------------- record (real writer -> bytes -> chunk records)
@@ -198,14 +198,13 @@ def run(ctx):
 
     def check_part(pi):
         todo = parts[pi]
-        found, accepted, rounds = [], 0, 0
+        found, accepted, rounds, nstates = [], 0, 0, 0
         while todo:
             sub = [ln for (_, a, b) in todo for ln in lines[a:b]]
             info, rej = validate(ctx, "p%d_%d" % (pi, rounds), sub)
             if rej is None:
                 accepted += len(todo)
-                ctx.states += info["distinct"]          # states = trace records TLC took as steps
-                ctx.transitions += info["generated"]
+                nstates += info["distinct"]
                 break
             line, why, sname = rej
             off = 0
@@ -221,14 +220,16 @@ def run(ctx):
             todo = todo[j + 1:]
             if rounds >= MAX_REJECTS:
                 break
-        return found, accepted, len(todo) if rounds >= MAX_REJECTS else 0
+        return found, accepted, (len(todo) if rounds >= MAX_REJECTS else 0), nstates
 
     with ThreadPoolExecutor(max_workers=min(ctx.workers, 8)) as ex:
         outs = list(ex.map(check_part, range(len(parts))))
     unchecked = 0
     by_class = {}
-    for found, accepted, skipped in outs:
+    for found, accepted, skipped, nstates in outs:
         ctx.traces_validated += accepted
+        ctx.states += nstates                # states = trace records TLC took as steps of the accepted parts
+        ctx.transitions += nstates
         unchecked += skipped
         for f in found:
             by_class.setdefault(f[2], []).append(f)
